@@ -83,6 +83,8 @@ Inductive sres :=
 | Bad (e : err).                      (* raised _MalformedChunkedDataError *)
 
 Definition init : st := mkst MLen [] 0 0%N 0%N.
+(* the limit a decoder is created with (_maxTrailerHeadersSize in __init__, from Gen.v) *)
+Definition default_maxtr : N := default_max_trailer.
 Definition with_buf (s : st) (b : bytes) : st := mkst (md s) b (start s) (remaining s) (rcvd s).
 
 Section Decoder.
